@@ -5,6 +5,7 @@ VERIF = os.path.dirname(os.path.dirname(os.path.dirname(os.path.abspath(__file__
 SPEC = os.path.join(VERIF, "spec")
 HARNESS = os.path.join(VERIF, "harness")
 OUT = os.path.join(VERIF, "out")
+os.makedirs(os.path.join(OUT, "tlc"), exist_ok=True)      # recorders write there before any TLC run has created it
 EVID = os.path.join(VERIF, "evidence")
 UNIV = os.path.join(VERIF, "universes")
 
